@@ -62,7 +62,7 @@ def run():
     # ---- half-lock: fine trace ---------------------------------------------------------------
     sc = "SeqCst"
     consts = dict(Readers={1}, Writers={2}, Sections=1, Stores=1, DeliverOn={1, 2}, MaxNested=2,
-                  MaxDeliveries=100, ReadOrder="count_then_ptr", Barrier="both", Sticky=True,
+                  MaxDeliveries=100, ReadOrder="count_then_ptr", Barrier="both", Sticky=True, Publish="swap",
                   OrdRGen=sc, OrdRInc=sc, OrdRPtr=sc, OrdRDec=sc, OrdWPtr=sc, OrdWSwap=sc,
                   OrdWSeen=sc, OrdWFlip=sc)
     tv = validate_trace("TraceHalfLock.tla", finef, "self_hl_fine", constants=consts,
